@@ -16,9 +16,18 @@ pub struct Case {
 pub fn gen_schema_case(t: &mut Tape, cfg: GenCfg, ctx: &mut Ctx, prop: &str) -> Option<Case> {
 	let schema = SchemaGen::new(t, cfg).gen();
 	let json = spell_plain(&schema);
-	let via_nodes = t.chance(48);
-	let crate_schema: Result<Schema, String> = if via_nodes {
+	// three routes to the same schema: parsed text (most cases), the builder API, or a parsed
+	// *other* document whose nodes are replaced through nodes_mut() (nothing of the first
+	// document - cached JSON, fingerprint - may survive the edit)
+	let route = t.byte();
+	let via_nodes = route >= 208;
+	let crate_schema: Result<Schema, String> = if route >= 232 {
 		serde_avro_fast::schema::SchemaMut::from_nodes(to_nodes(&schema)).freeze().map_err(|e| e.to_string())
+	} else if route >= 208 {
+		let mut sm: serde_avro_fast::schema::SchemaMut = r#"{"type":"record","name":"Before","fields":[{"name":"x","type":"long"}]}"#.parse().expect("fixed document");
+		let _ = sm.canonical_form_rabin_fingerprint();
+		*sm.nodes_mut() = to_nodes(&schema);
+		sm.freeze().map_err(|e| e.to_string())
 	} else {
 		json.parse::<Schema>().map_err(|e| e.to_string())
 	};
